@@ -177,6 +177,30 @@ def _check_ctor(K, V, m, machine):
     return fails
 
 
+def _check_alias(K, V, m, ev, machine):
+    """Two maps built from the same dict: an operation on the first must leave the dict and the
+    second map untouched, and the first must behave as the model says."""
+    from hugr.utils import BiMap
+
+    mapping = {K[i]: V[c] for i, c in m.items()}
+    snapshot = dict(mapping)
+    fails = []
+    try:
+        a, b = BiMap(mapping), BiMap(mapping)
+    except Exception as e:  # noqa: BLE001
+        return [("ctor:exception", f"BiMap({mapping!r}) raised {type(e).__name__}")]
+    sa = S(a)
+    sa.ref = set(snapshot.items())
+    fails += machine.step(sa, ev)
+    if mapping != snapshot:
+        fails.append(("ctor:aliases-argument", f"after {ev} on BiMap(d) the caller's dict changed from {snapshot!r} to {mapping!r}"))
+    sb = S(b)
+    sb.ref = set(snapshot.items())
+    for sig, msg in machine.compare(sb, "ctor-sibling"):
+        fails.append((sig, f"a second map built from the same dict changed after {ev} on the first: {msg}"))
+    return fails
+
+
 def run(tier: str, seed: int) -> Result:
     K = permuted(ALPHA[tier], seed, "c18k")
     V = permuted(ALPHA[tier], seed, "c18v")
@@ -192,6 +216,16 @@ def run(tier: str, seed: int) -> Result:
             n_noninj += 1
         for sig, msg in _check_ctor(K, V, mp_, m):
             col.add(sig, msg, {"ctor": {str(i): c for i, c in mp_.items()}, "tier": tier})
+    # construction must not alias the caller's mapping nor a sibling map built from it
+    n_alias = 0
+    for mp_ in _ctor_cases(K, V):
+        mapping = {K[i]: V[c] for i, c in mp_.items()}
+        if len(set(map(repr, mapping.values()))) != len(mapping):
+            continue
+        for ev in m.enabled(None):
+            n_alias += 1
+            for sig, msg in _check_alias(K, V, mp_, ev, m):
+                col.add(sig, msg, {"ctor_alias": [{str(i): c for i, c in mp_.items()}, ev], "tier": tier})
     # none-argument constructors
     from hugr.utils import BiMap
 
@@ -206,7 +240,8 @@ def run(tier: str, seed: int) -> Result:
         "states": st.states,
         "transitions": st.transitions,
         "traces_validated_against_impl": st.transitions,
-        "evaluations": st.transitions + n_ctor,
+        "evaluations": st.transitions + n_ctor + n_alias,
+        "constructor_alias_cases": n_alias,
         "distinct_nontrivial": st.states - 1,
         "rule": "state = partial bijection over the alphabet (non-trivial = non-empty); every one of the "
         "6 operations with every argument is executed on the implementation from every reachable state "
@@ -237,6 +272,9 @@ def replay(case) -> list[Violation]:
             if fails:
                 out += [Violation(sig, msg, case) for sig, msg in fails]
                 break
+    elif "ctor_alias" in case:
+        mp_ = {int(i): c for i, c in case["ctor_alias"][0].items()}
+        out += [Violation(sig, msg, case) for sig, msg in _check_alias(K, V, mp_, case["ctor_alias"][1], m)]
     else:
         mp_ = {int(i): c for i, c in case["ctor"].items()}
         out += [Violation(sig, msg, case) for sig, msg in _check_ctor(K, V, mp_, m)]
